@@ -17,6 +17,12 @@ Completeness of the builders (converse of R2): vocabulary.
                     although the documented mapping says `null`; unions have at most 128 variants (type ids are
                     `i8`).  Since repo fix 837fa53 a union takes `serialize_default` through its first variant
                     that is not a placeholder (`defOKFirst`); before, through variant 0 whatever it was.
+                    Since repo fix fe68100 (checked row counters of unions) a default is one ROW of that variant:
+                    a `None` of a `FixedSizeList(_, m)` (size 1) sends `m` defaults to its child, which would
+                    take `m` units of the head room of a union reachable by defaults below it (through structs /
+                    fixed-size lists) — `defOK` of a fixed-size list therefore also requires `noDefUF` of its
+                    child: no union below it receives defaults.  (Unions below lists, maps, dictionaries, or as
+                    variants / struct fields outside nullable fixed-size lists are not restricted.)
 -/
 namespace SaModel.Build
 open SaModel SaModel.Spec
@@ -125,6 +131,25 @@ theorem curRoom_set : ∀ (cur : List Int) (i : Nat) (co : Int), cur[i]? = some 
     have := curRoom_set r i co h
     simp only [List.set_cons_succ, curRoom]; omega
 
+/-- `k` rows of one variant take `k` units of the counters' head room -/
+theorem curRoom_setK : ∀ (cur : List Int) (i : Nat) (co : Int) (k : Nat), cur[i]? = some co →
+    curRoom cur ≤ curRoom (cur.set i (co + (k : Int))) + k
+  | [], i, co, k, h => by simp at h
+  | c :: r, 0, co, k, h => by
+    simp only [List.getElem?_cons_zero, Option.some.injEq] at h
+    subst h; simp only [List.set_cons_zero, curRoom]; omega
+  | c :: r, i + 1, co, k, h => by
+    simp only [List.getElem?_cons_succ] at h
+    have := curRoom_setK r i co k h
+    simp only [List.set_cons_succ, curRoom]; omega
+
+/-- `k` union rows of one variant may be pushed: the counter stays within `i32` -/
+theorem curRoom_le_get {cur : List Int} {i : Nat} {co : Int} {k : Nat} (h : cur[i]? = some co) (hr : k ≤ curRoom cur)
+    (hk : k ≠ 0) : ¬ (co + (k : Int) > 2147483647) := by
+  have := curRoom_get cur i co h
+  simp only [LIM] at this
+  omega
+
 mutual
 /-- head room: the minimum of `limit - current` over every capacity-limited counter in the builder tree -/
 def room : B → Nat
@@ -161,10 +186,29 @@ def isPlaceholderF : Field → Bool
   | .mk _ dt _ md => isUnknownVariant dt md
 
 mutual
-/-- `serialize_default` is supported by the builder of this type (all of its parts that receive it) -/
+/-- no union receives `serialize_default` when the builder of this type does (`serialize_default` / `serialize_none`
+are forwarded to children by structs and fixed-size lists only; a union takes a default as one ROW of its first real
+variant, which costs one unit of that variant's row counter) -/
+def noDefU : DataType → Bool
+  | .union _ _ => false
+  | .struct fs => noDefUFs fs
+  | .fixedSizeList f _ => noDefUF f
+  | _ => true
+def noDefUF : Field → Bool
+  | .mk _ dt _ _ => noDefU dt
+def noDefUFs : Fields → Bool
+  | .nil => true
+  | .cons f r => noDefUF f && noDefUFs r
+end
+
+mutual
+/-- `serialize_default` is supported by the builder of this type (all of its parts that receive it), at the price of
+at most one unit of head room per call: one default / `None` of a `FixedSizeList(_, m)` sends `m` defaults to the
+child, so no union may be reachable by defaults below a fixed-size list (`noDefUF`; repo fix fe68100: every default
+row of a union counts against `i32::MAX` rows of its first real variant) -/
 def defOK : DataType → Metadata → Bool
   | .null, md => !isUnknownVariant .null md
-  | .fixedSizeList f _, _ => defOKF f
+  | .fixedSizeList f _, _ => defOKF f && noDefUF f
   | .struct fs, _ => defOKFs fs
   | .union ufs _, _ => decide (UFields.length ufs ≤ 128) && defOKFirst ufs
   | _, _ => true
@@ -186,7 +230,7 @@ unions have at most 128 variants -/
 def total : DataType → Bool → Metadata → Bool
   | .list f, _, _ => totalF f
   | .largeList f, _, _ => totalF f
-  | .fixedSizeList f _, n, _ => totalF f && (!n || defOKF f)
+  | .fixedSizeList f _, n, _ => totalF f && (!n || (defOKF f && noDefUF f))
   | .map (.mk _ (.struct (.cons kf (.cons vf _))) _ _) _, _, _ => totalF kf && totalF vf
   | .struct fs, n, _ => totalFs fs && (!n || defOKFs fs)
   | .union ufs _, _, _ => decide (UFields.length ufs ≤ 128) && totalUs ufs
